@@ -511,4 +511,60 @@ theorem RLInv.poll {C : Nat} {r : RL} {g : Ghost} (h : RLInv C r g) (hC : C ≤ 
           simp only [Ghost.afterPoll, hg]
           exact ⟨b', rfl, hinv', by rw [q1, p1], by rw [q3, p2], by rw [q2, p3]⟩
 
+/-! ### Content level helpers -/
+
+theorem applyCfg_avail (r : RL) (now : Nat) : (r.applyCfg now).avail = r.avail := by
+  unfold RL.applyCfg
+  cases hp : r.pendingCfg with
+  | none => rfl
+  | some cfg => dsimp only; cases fromConfig cfg now <;> rfl
+
+theorem applyCfg_of_no_pending (r : RL) (now : Nat) (h : r.pendingCfg = none) : r.applyCfg now = r := by
+  unfold RL.applyCfg; rw [h]
+
+/-- A count-level poll that returns bytes returns `min avail buf` of them, and only when some
+are ready; a pending one leaves `avail` alone. -/
+theorem rl_poll_count (r r' : RL) (now buf : Nat) (out : PollOut) (h : r.poll now buf = some (r', out)) :
+    (∀ n, out = .ready n → r.avail ≠ 0 ∧ n = min r.avail buf) ∧
+    (out = .pending → r'.avail = r.avail) := by
+  unfold RL.poll at h
+  have hav := applyCfg_avail r now
+  generalize r.applyCfg now = r1 at *
+  unfold innerRead at h
+  cases hb : r1.bucket with
+  | none =>
+    simp only [hb] at h
+    by_cases ha : r1.avail = 0
+    · simp only [ha, if_true, Option.some.injEq, Prod.mk.injEq] at h
+      obtain ⟨rfl, rfl⟩ := h
+      exact ⟨fun n hn => (by cases hn), fun _ => hav⟩
+    · simp only [ha, if_false, Option.some.injEq, Prod.mk.injEq] at h
+      obtain ⟨rfl, rfl⟩ := h
+      exact ⟨fun n hn => (by cases hn; rw [← hav]; exact ⟨ha, rfl⟩), fun hn => (by cases hn)⟩
+  | some b =>
+    simp only [hb] at h
+    by_cases hbl : Reader.blocked r1.sleepUntil now = true
+    · simp only [hbl, if_true, Option.some.injEq, Prod.mk.injEq] at h
+      obtain ⟨rfl, rfl⟩ := h
+      exact ⟨fun n hn => (by cases hn), fun _ => hav⟩
+    · simp only [hbl, Bool.false_eq_true, if_false] at h
+      by_cases ha : r1.avail = 0
+      · simp only [ha, if_true, Option.some.injEq, Prod.mk.injEq] at h
+        obtain ⟨rfl, rfl⟩ := h
+        exact ⟨fun n hn => (by cases hn), fun _ => (by rw [← hav]; exact ha.symm)⟩
+      · simp only [ha, if_false] at h
+        cases hc : b.consume (min r1.avail buf) now with
+        | none => simp [hc] at h
+        | some pr =>
+          obtain ⟨b', res⟩ := pr
+          cases res with
+          | none =>
+            simp only [hc, Option.some.injEq, Prod.mk.injEq] at h
+            obtain ⟨rfl, rfl⟩ := h
+            exact ⟨fun n hn => (by cases hn; rw [← hav]; exact ⟨ha, rfl⟩), fun hn => (by cases hn)⟩
+          | some d =>
+            simp only [hc, Option.some.injEq, Prod.mk.injEq] at h
+            obtain ⟨rfl, rfl⟩ := h
+            exact ⟨fun n hn => (by cases hn; rw [← hav]; exact ⟨ha, rfl⟩), fun hn => (by cases hn)⟩
+
 end IrohModel.C09
